@@ -28,6 +28,11 @@ def main(args):
             c = b.cases[0]; b.unit.build()
             if not b.build_native_for(c, 'real'): print('native build failed'); return 2
             res = c.run_native(bytes.fromhex(r['input_hex']))
+        elif r.get('kind') in ('build', 'constexpr'):
+            # a build / constant-evaluation / static-frame obligation has no input to re-run: the obligation itself is re-established from /repo's current tree
+            import subprocess
+            print('%s obligation of %s (%s): re-running ./check %s --tier quick' % (r.get('kind'), r['property'], r.get('unit') or r.get('query'), r['property']), flush=True)
+            return subprocess.call([os.path.join(vlib.VERIF, 'check'), r['property'], '--tier', 'quick'])
         elif r.get('kind') == 'generic':
             import importlib
             mod = importlib.import_module(r['module'])
